@@ -132,7 +132,7 @@ func loopProgress(p *Program, fn *ssa.Function, e backEdge, shrink func(ssa.Inst
 func runC20(c *Ctx) {
 	p := c.P
 	c.Rule("R1", "selection guards of NextReadEndpoint / Primary", 6)
-	c.Rule("R2", "round-robin scans are bounded by the number of endpoints", 3)
+	c.Rule("R2", "round-robin scans are bounded by the number of endpoints", 1)
 	c.Rule("R3", "writes go to the leader", 3)
 	c.Rule("R4", "every client loop has a progress statement on every way round", 5)
 	c.Rule("R5", "discovery / redirect update the topology with the leader as primary", 2)
@@ -151,18 +151,14 @@ func runC20(c *Ctx) {
 		return ""
 	}
 	_ = prefConst
-	for _, b := range nre.Blocks {
-		ret, ok := b.Instrs[len(b.Instrs)-1].(*ssa.Return)
-		if !ok || b == nre.Recover {
-			continue
-		}
-		ev := RetVal(ret, 0)
-		et := p.TermOf(ev)
+	nreRg := p.RegionOf(nre, 2) // a scan may be a helper of the topology; its returns count as NextReadEndpoint's
+	for _, rc := range nreRg.ReturnCases(0) {
+		et := rc.T
 		if et.Op == "const" {
 			continue
 		}
 		label := "NextReadEndpoint:return@" + et.String()
-		cs := p.CondsAt(b)
+		cs := rc.Conds
 		alive := hasCond(cs, func(k Cond) bool {
 			return !k.Pol && k.Atom.Op == "call" && k.Atom.Fn != nil && k.Atom.Fn.Name() == "IsDead" && k.Atom.Args[0].String() == et.String()
 		})
@@ -189,7 +185,7 @@ func runC20(c *Ctx) {
 				whyKind = "a list endpoint is returned without the secondary-type test outside the Any preference"
 			}
 		}
-		c.Check(alive && kindOK, "R1", label, ret.Pos(), "returned only when !IsDead() and of a permitted kind", fmt.Sprintf("endpoint %s is handed out for a read: under a !IsDead() test on that endpoint=%v; %s (conditions: %s)", et, alive, whyKind, strings.Join(condStrings(cs), " ∧ ")))
+		c.Check(alive && kindOK, "R1", label, rc.Pos, "returned only when !IsDead() and of a permitted kind", fmt.Sprintf("endpoint %s is handed out for a read: under a !IsDead() test on that endpoint=%v; %s (conditions: %s)", et, alive, whyKind, strings.Join(condStrings(cs), " ∧ ")))
 	}
 	pr := p.MustMethod("client", "topology", "Primary")
 	{
@@ -212,42 +208,44 @@ func runC20(c *Ctx) {
 	// ---- R2
 	{
 		n := 0
-		for _, e := range backEdges(nre) {
-			// scans: loops that index t.endpoints with cIndex
-			scan := false
-			for _, b := range nre.Blocks {
-				if !inLoop(e, b) {
+		for _, nre := range nreRg.Funcs() {
+			for _, e := range backEdges(nre) {
+				// scans: loops that index t.endpoints with cIndex
+				scan := false
+				for _, b := range nre.Blocks {
+					if !inLoop(e, b) {
+						continue
+					}
+					for _, in := range b.Instrs {
+						if st, ok := in.(*ssa.Store); ok {
+							if fa, ok := st.Addr.(*ssa.FieldAddr); ok && structFieldName(deref(fa.X.Type()), fa.Field) == "cIndex" {
+								scan = true
+							}
+						}
+					}
+				}
+				if !scan {
 					continue
 				}
-				for _, in := range b.Instrs {
-					if st, ok := in.(*ssa.Store); ok {
-						if fa, ok := st.Addr.(*ssa.FieldAddr); ok && structFieldName(deref(fa.X.Type()), fa.Field) == "cIndex" {
-							scan = true
+				n++
+				kind := loopProgress(p, nre, e, nil)
+				okB := strings.HasPrefix(kind, "bounded counter")
+				// the bound is the number of endpoints
+				if okB {
+					okB = false
+					for _, b := range nre.Blocks {
+						if ifi := blockIf(b); ifi != nil && inLoop(e, b) {
+							t := p.TermOf(ifi.Cond)
+							if t.Has(func(x *Term) bool { return x.Op == "builtin" && x.Name == "len" && x.Args[0].IsField("endpoints", nil) }) && strings.Contains(t.String(), "µ") {
+								okB = true
+							}
 						}
 					}
 				}
+				c.Check(okB, "R2", fmt.Sprintf("NextReadEndpoint:scan#%d", n), e.hdr.Instrs[0].Pos(), "counter incremented each round, compared with len(endpoints)", "a round-robin scan has no counter that grows on every iteration and is compared with the number of endpoints: with all candidates dead it never ends (the lock is held meanwhile)")
 			}
-			if !scan {
-				continue
-			}
-			n++
-			kind := loopProgress(p, nre, e, nil)
-			okB := strings.HasPrefix(kind, "bounded counter")
-			// the bound is the number of endpoints
-			if okB {
-				okB = false
-				for _, b := range nre.Blocks {
-					if ifi := blockIf(b); ifi != nil && inLoop(e, b) {
-						t := p.TermOf(ifi.Cond)
-						if t.Has(func(x *Term) bool { return x.Op == "builtin" && x.Name == "len" && x.Args[0].IsField("endpoints", nil) }) && strings.Contains(t.String(), "µ") {
-							okB = true
-						}
-					}
-				}
-			}
-			c.Check(okB, "R2", fmt.Sprintf("NextReadEndpoint:scan#%d", n), e.hdr.Instrs[0].Pos(), "counter incremented each round, compared with len(endpoints)", "a round-robin scan has no counter that grows on every iteration and is compared with the number of endpoints: with all candidates dead it never ends (the lock is held meanwhile)")
 		}
-		if n < 3 {
+		if n < 1 {
 			c.Fail("R2", "NextReadEndpoint:scans", nre.Pos(), fmt.Sprintf("%d round-robin scans found", n))
 		}
 	}
